@@ -40,11 +40,11 @@ PROPS["C19"] = dict(
     design_ref="4/C19",
     assumptions=["cache entry keys are at least as long as the locus", "ties in distance may be enumerated in any order"],
     subs=[
-        R("C19.foreach_order", "kad", "TestC19ForEachOrder", 6000, 400000),
-        R("C19.foreach_matching", "kad", "TestC19Matching", 4000, 200000),
-        R("C19.distance_laws_random", "kad", "TestC19DistanceLawsRandom", 10000, 500000),
+        R("C19.foreach_order", "kad", "TestC19ForEachOrder", 30000, 400000),
+        R("C19.foreach_matching", "kad", "TestC19Matching", 20000, 200000),
+        R("C19.distance_laws_random", "kad", "TestC19DistanceLawsRandom", 50000, 500000),
         P("C19.distance_laws_exhaustive", "kad", "TestC19DistanceLawsExhaustive"),
-        R("C19.node_list_nearest", "kad", "TestC19NodeInfos", 2000, 80000),
+        R("C19.node_list_nearest", "kad", "TestC19NodeInfos", 10000, 80000),
         F("C19.fuzz_distance_laws", "kad", "FuzzDistanceLaws"),
     ],
 )
@@ -70,10 +70,10 @@ PROPS["C20"] = dict(
     design_ref="4/C20",
     assumptions=["the all-zero PeerID is the library's 'no peer' sentinel and is not used as a node id", "adversarial responders draw fabricated ids from a finite pool"],
     subs=[
-        R("C20.find_node", "kad", "TestC20FindNode", 1500, 60000),
-        R("C20.join", "kad", "TestC20Join", 1500, 60000),
-        R("C20.get", "kad", "TestC20Get", 1500, 60000),
-        R("C20.put", "kad", "TestC20Put", 1500, 60000),
+        R("C20.find_node", "kad", "TestC20FindNode", 8000, 60000),
+        R("C20.join", "kad", "TestC20Join", 8000, 60000),
+        R("C20.get", "kad", "TestC20Get", 8000, 60000),
+        R("C20.put", "kad", "TestC20Put", 8000, 60000),
     ],
 )
 
@@ -85,9 +85,9 @@ PROPS["C17"] = dict(
     design_ref="4/C17",
     assumptions=["object identifier arcs fit encoding/asn1's decoder (31 bits)", "p2pkeswarm and quicswarm default fingerprinters are different functions by design; only 'function of the key alone' is asserted for each"],
     subs=[
-        R("C17.key_roundtrip", "codec", "TestC17KeyRoundTrip", 6000, 400000),
-        R("C17.wire_independence", "codec", "TestC17WireIndependence", 3000, 200000),
-        R("C17.peerid_text", "codec", "TestC17PeerIDText", 8000, 400000),
+        R("C17.key_roundtrip", "codec", "TestC17KeyRoundTrip", 30000, 400000),
+        R("C17.wire_independence", "codec", "TestC17WireIndependence", 15000, 200000),
+        R("C17.peerid_text", "codec", "TestC17PeerIDText", 40000, 400000),
         F("C17.fuzz_key_parse", "codec", "FuzzKeyParse"),
         F("C17.fuzz_peerid_text", "codec", "FuzzPeerIDText"),
     ],
@@ -101,8 +101,8 @@ PROPS["C16"] = dict(
     design_ref="4/C16",
     assumptions=["multi-transport scheme names are non-empty and drawn from the URI scheme alphabet"],
     subs=[
-        R("C16.generated", "codec", "TestC16Generated", 8000, 500000),
-        R("C16.arbitrary_text", "codec", "TestC16ArbitraryText", 8000, 500000),
+        R("C16.generated", "codec", "TestC16Generated", 30000, 500000),
+        R("C16.arbitrary_text", "codec", "TestC16ArbitraryText", 30000, 500000),
         F("C16.fuzz_addr_parse", "codec", "FuzzAddrParse"),
         R("C16.harvested", "swarms", "TestC16Harvested", 60, 2500, shrink=10, quick=dict(checks=60, shards=2, timeout=600)),
     ],
@@ -117,7 +117,7 @@ PROPS["C06"] = dict(
     assumptions=["sessions do not expire during a schedule (fixed clock)"],
     subs=[
         P("C06.schedules_exhaustive", "ke", "TestC06Exhaustive", qto=600, tto=3000),
-        R("C06.schedules_random", "ke", "TestC06Random", 1500, 60000),
+        R("C06.schedules_random", "ke", "TestC06Random", 6000, 60000),
     ],
 )
 
@@ -129,7 +129,7 @@ PROPS["C03"] = dict(
     design_ref="4/C03",
     assumptions=["the adversary cannot forge signatures or break the Noise key exchange", "a lifted signature whose signed data differs from the transcript cannot verify (collision resistance)"],
     subs=[
-        R("C03.forgery", "ke", "TestC03Forgery", 2500, 120000, steps=30),
+        R("C03.forgery", "ke", "TestC03Forgery", 10000, 120000, steps=30),
     ],
 )
 
@@ -141,7 +141,7 @@ PROPS["C02"] = dict(
     design_ref="4/C02",
     assumptions=["the adversary cannot forge AEAD tags", "channel-level checks use real timers with rekey interval ~150 ms"],
     subs=[
-        R("C02.session_dolev_yao", "ke", "TestC02Session", 1500, 80000, steps=40),
+        R("C02.session_dolev_yao", "ke", "TestC02Session", 5000, 80000, steps=40),
         R("C02.session_concurrent_send", "ke", "TestC02SessionConcurrentSend", 60, 3000),
         R("C02.channel_rotation", "kechan", "TestC02ChannelRotation", 16, 600, shrink=5, quick=dict(checks=16, shards=4, timeout=600)),
         R("C02.concurrent_send", "kechan", "TestC02ConcurrentSend", 40, 1500, shrink=5, quick=dict(checks=40, shards=2, timeout=600)),
@@ -173,6 +173,7 @@ PROPS["C07"] = dict(
         P("C07.prefix_tree", "kechan", "TestC07PrefixTree", qto=600, tto=3000),
         R("C07.rekey_flow", "kechan", "TestC07RekeyFlow", 12, 400, shrink=5, quick=dict(checks=12, shards=4, timeout=600)),
         R("C07.no_idle_teardown", "kechan", "TestC07NoIdleTeardown", 8, 300, shrink=5, quick=dict(checks=8, shards=4, timeout=600)),
+        R("C07.late_duplicates_then_idle", "kechan", "TestC07LateDuplicates", 48, 2000, shrink=5, quick=dict(shards=4, timeout=600)),
     ],
 )
 
@@ -211,7 +212,7 @@ PROPS["C15"] = dict(
     design_ref="4/C15",
     assumptions=["frames are compared pairwise among generated cases only"],
     subs=[
-        R("C15.framing", "swarms", "TestC15Framing", 3000, 200000),
+        R("C15.framing", "swarms", "TestC15Framing", 8000, 200000),
         R("C15.isolation", "swarms", "TestC15Isolation", 300, 15000, quick=dict(checks=300, shards=2, timeout=600)),
         R("C15.concurrent_senders", "swarms", "TestC15Concurrent", 150, 8000),
     ],
@@ -225,9 +226,10 @@ PROPS["C10"] = dict(
     design_ref="4/C10",
     assumptions=["senders are honest and do not reuse message ids within the reassembly window"],
     subs=[
-        R("C10.fragswarm", "swarms", "TestC10Frag", 500, 30000),
-        R("C10.mbapp", "swarms", "TestC10Mbapp", 400, 25000, quick=dict(checks=400, shards=2, timeout=600)),
+        R("C10.fragswarm", "swarms", "TestC10Frag", 1500, 30000),
+        R("C10.mbapp", "swarms", "TestC10Mbapp", 1000, 25000, quick=dict(checks=1000, shards=2, timeout=600)),
         R("C10.mbapp_reply_vs_tell", "swarms", "TestC10MbappBidi", 120, 6000, quick=dict(checks=120, shards=2, timeout=600)),
+        R("C10.slow_gc_epochs", "swarms", "TestC10SlowEpochs", 1, 8, shrink=0, quick=dict(skip=True), thorough=dict(timeout=1200)),
     ],
 )
 
@@ -304,7 +306,7 @@ PROPS["C14"] = dict(
     design_ref="4/C14",
     assumptions=["a data race is attributed to the library when a stack of the report has a frame under go.brendoncarroll.net/p2p/"],
     subs=[
-        R("C14.contention_workloads", "swarms", "TestC14Stress", 48, 1200, race=True, shrink=5, quick=dict(checks=48, shards=6, timeout=900)),
+        R("C14.contention_workloads", "swarms", "TestC14Stress", 72, 1200, race=True, shrink=5, quick=dict(checks=72, shards=6, timeout=900)),
         R("C14.channel_close_during_callback", "swarms", "TestC14ChannelClose", 24, 800, race=True, shrink=5, quick=dict(checks=24, shards=4, timeout=900)),
         R("C14.kademlia_concurrent", "kad", "TestC14Cache", 10, 300, race=True, shrink=5),
         R("C14.recycled_buffer_exposure", "swarms", "TestC14BufferReuse", 150, 8000),
